@@ -355,6 +355,7 @@ contract(
 _BLK = "(self.context.gdefTableBlock if self.context.gdefTableBlock else self.context.feaFile.statements[len(self.context.feaFile.statements) - 1])"
 _LAST = f"{_BLK}.statements[len({_BLK}.statements) - 1]"
 _C = "self.context.openTypeCategories"
+_OGSW = "self.context.orderedGlyphSet"
 contract(
     "ufo2ft.featureWriters.gdefFeatureWriter:GdefFeatureWriter._write",
     name="classdefs",
@@ -371,16 +372,19 @@ contract(
     ensures={
         "returns-true": "result",
         # feaLib's GlyphClassDefStatement(baseGlyphs, markGlyphs, ligatureGlyphs, componentGlyphs): each argument is the sorted class of ITS category
-        "argument-order": f"{_LAST}.kind == 'GlyphClassDefStatement'"
-        f" and {_LAST}.baseGlyphs.glyphs == c18_sorted_class(self, {_C}.base) and {_LAST}.markGlyphs.glyphs == c18_sorted_class(self, {_C}.mark)"
-        f" and {_LAST}.ligatureGlyphs.glyphs == c18_sorted_class(self, {_C}.ligature) and {_LAST}.componentGlyphs.glyphs == c18_sorted_class(self, {_C}.component)",
+        # = exactly the exported glyphs of that category, in increasing order (`_sortedGlyphClass` is called through its CONTRACT, c18gdef.py)
+        "statement-kind": f"{_LAST}.kind == 'GlyphClassDefStatement'",
+        **{f"argument-order-{cat}": f"all(n in {_OGSW} and n in {_C}.{cat} for n in {_LAST}.{cat}Glyphs.glyphs)"
+           f" and all(implies(n in {_C}.{cat}, n in {_LAST}.{cat}Glyphs.glyphs) for n in {_OGSW})"
+           f" and all(all(implies(k1 < k2, {_LAST}.{cat}Glyphs.glyphs[k1] <= {_LAST}.{cat}Glyphs.glyphs[k2]) for k2 in range(len({_LAST}.{cat}Glyphs.glyphs))) for k1 in range(len({_LAST}.{cat}Glyphs.glyphs)))"
+           for cat in ("base", "mark", "ligature", "component")},
         # additive: a user-written GDEF block keeps its statements, in order, in front of the generated one
         "user-gdef-kept": "implies(self.context.gdefTableBlock, self.context.gdefTableBlock.stmt_ids[:len(self.context.gdefTableBlock.stmt_ids) - 1] == old(self.context.gdefTableBlock.stmt_ids)"
         " and self.context.feaFile.stmt_ids == old(self.context.feaFile.stmt_ids))",
         "new-gdef-appended": "implies(not self.context.gdefTableBlock, self.context.feaFile.stmt_ids[:len(self.context.feaFile.stmt_ids) - 1] == old(self.context.feaFile.stmt_ids)"
         f" and {_BLK}.kind == 'TableBlock' and {_BLK}.name == 'GDEF' and len({_BLK}.statements) == 1)",
     },
-    canaries={"mark-is-second-wrong": f"{_LAST}.markGlyphs.glyphs == c18_sorted_class(self, {_C}.ligature)"},
+    canaries={"mark-is-second-wrong": f"all(implies(n in {_C}.ligature, n in {_LAST}.markGlyphs.glyphs) for n in {_OGSW})"},
 )
 
 # =====================================================================================================================
